@@ -11,6 +11,32 @@ DONE = {
   'implementation, extracted model and extracted spec are compared on every cell of the threshold arrangement and on random points.',
   'regenerated Gallina model + Coq theorems (lra cell decomposition) + differential check vs extracted model/spec',
   'CPython float semantics modelled as exact rationals of doubles (margin rule at rounding ties). Print Assumptions: closed under the global context.'),
+ 'C03': ('§5.C03',
+  'Hand-written Gallina mirror of pdb2sql.get (column/key validation, per-model recursion, list vs scalar, rowID +1/-1, chunking with fuel, 999 check, '
+  'flattening) over a mini-SQL semantics with SQLite affinity rules; constants of get are regenerated and proved to be the ones the model is built from. '
+  'Coq proves for all tables, attribute strings and conditions (lists <= 950 values): get = the row-by-row specification (filter, project, shape), '
+  'scalar = singleton list, unknown names rejected, rowID zero-based in all three roles. Bounded-exhaustive (every subset of a condition pool on small tables) '
+  'and random correspondence of implementation, extracted model and extracted spec on real SQLite databases.',
+  'hand-written Gallina model + Coq theorems (induction over rows and conditions) + regenerated constants + differential check',
+  'SQLite value layer (affinity on store and on IN operands, BINARY collation, NULL) is an assumption shared by model and spec, validated by every '
+  'correspondence case. Known findings F20 (duplicate rowID column), F23 (rowid aliases). Print Assumptions: closed under the global context.'),
+ 'C04': ('§5.C04',
+  'Gallina models of update, update_xyz, update_column (with/without index), add_column and _fix_chainID over the same table semantics; specification '
+  'is the list-of-records machine. Coq proves step refinement for every modelled operation, the frame properties (other rows, other columns, count and '
+  'order unchanged), atomicity of shape errors, and by induction over histories that every reachable model state equals the specification state. '
+  'Correspondence: after every step of generated histories the full state of every table of the real database is compared with model and spec; value '
+  'carriers of all listed Python/NumPy types.',
+  'hand-written Gallina model + Coq refinement theorems (induction over histories) + history correspondence',
+  'NumPy carriers are reduced to Python numbers by the harness (no Coq statement about NumPy types); _fix_chainID by correspondence only. '
+  'Known findings F19 (ragged value list: partial write), F22b. Print Assumptions: closed under the global context.'),
+ 'C17': ('§5.C17',
+  'The chunking and per-model recursions of get with tablename threading are modelled with explicit fuel. Coq proves, for every list length and every '
+  'table name, that outside the recorded finding classes the result equals the row-by-row specification on the addressed table or the documented '
+  'too-many-variables error, that the result never depends on another table, and refutes the full statement with vm_compute witnesses for each finding. '
+  'Correspondence on databases of 1-3 structures up to 4000 atoms with list lengths around 950/999/1900/2851, positive/negated, duplicates, unsorted.',
+  'hand-written Gallina model with fuel + Coq theorems (induction on the number of long lists) + refutation witnesses + differential check',
+  'Known findings F10 (negated long list: RecursionError), F11 (chunk order / duplicates), F21 (TypeError instead of the documented ValueError), '
+  'F22 (columns validated against the first table). update() with long lists by correspondence only. Print Assumptions: closed under the global context.'),
  'C13': ('§5.C13',
   'superpose() is modelled with the rotation kernel as an oracle argument (its optimality is C06): selection pairing (by position when sizes are '
   'equal, else through the identity-keyed many2sql intersection), centring on the selections, one rigid motion applied to ALL atoms, write-back of '
